@@ -86,6 +86,16 @@ type disjunct struct {
 	// tags: for each loop under analysis (key frame|head) the set of head disjuncts this
 	// disjunct descends from ("h1" or "h1+h4")
 	tags map[string]string
+	// memo: results of calls to module functions that write no memory, valid while no memory cell has
+	// changed since (a second call with the same arguments returns the same value)
+	memo []memoEnt
+}
+
+type memoEnt struct {
+	callee *ssa.Function
+	args   []rep
+	res    rep
+	loads  []types.Type // types of the memory the callee reads: a store of another type cannot change its result
 }
 
 func newDisjunct() *disjunct {
@@ -110,6 +120,7 @@ func (d *disjunct) clone() *disjunct {
 	for k, v := range d.mem {
 		r.mem[k] = v
 	}
+	r.memo = d.memo[:len(d.memo):len(d.memo)]
 	return r
 }
 
